@@ -20,6 +20,7 @@ import EnrVerif.Proofs.AccessorLemmas
 import EnrVerif.Model.Strings
 import EnrVerif.Proofs.Utf8Lemmas
 import EnrVerif.Proofs.DecodeLemmas
+import EnrVerif.Proofs.Examples
 
 namespace EnrVerif
 
@@ -375,6 +376,161 @@ theorem C14_builder_id {S : Scheme} (hL : S.Lawful) {b : Builder} {pk : S.PK} {o
   rw [Map.lookup_insert_ne _ _ _ _ (fun e => (hL.key_not_reserved pk).1 e.symm)]
   exact Map.lookup_insert_self _ _ _
 
+/-! ### non-vacuity
+
+`rF` (`Proofs/Examples.lean`) is the toy record `r0` after six successful own-key updates
+`set_udp_socket(10.0.0.1, 30303)`, `set_tcp4(80)`, `set_ip(2001:db8::1)`,
+`set_client_info("a", "bb", Some("c"))`, `insert("x", [7, 7])`, `set_tcp_socket(2001:db8::1, 443)`:
+a valid record with every kind of entry the accessors of this file read. -/
+
+section NonVacuity
+set_option maxRecDepth 100000
+
+example : rF.content =
+    [(kClient, [197, 97, 130, 98, 98, 99]), (kId, [130, 118, 52]), (kIp, [132, 10, 0, 0, 1]),
+     (kIp6, 144 :: ip6x), (kT, [131, 1, 2, 3]), (kTcp, [80]), (kTcp6, [130, 1, 187]),
+     (kUdp, [130, 118, 95]), ([120], [130, 7, 7])] := by rw [rF_eq]
+
+example : Valid tinyS rF ∧ rF.size = 85 := ⟨rF_valid, by decide⟩
+
+/-! ports -/
+
+/-- right to left: the stored value `82 76 5f` is the canonical encoding of 30303 … -/
+example : rF.udp4 = some 30303 := (C14_udp4_iff rF 30303).2 ⟨[], by decide, by decide⟩
+
+/-- … left to right: what the accessor reports is what is stored -/
+example : ∃ rest, Map.lookup rF.content kTcp6 = some (encUint 443 ++ rest) ∧ 443 < 65536 :=
+  (C14_tcp6_iff rF 443).1 (by decide)
+
+example : rF.tcp4 = some 80 ∧ rF.tcp6 = some 443 ∧ rF.udp4 = some 30303 ∧ rF.udp6 = none := by
+  decide
+
+/-- the exact form, whose hypothesis `ContentOK` holds for the valid record -/
+example : rF.tcp4 = some 80 :=
+  ((C14_ports_exact rF 80 rF_valid.content).1).2 (by decide)
+
+example : rF.getPort kUdp = some 30303 :=
+  (C14_port_get_exact rF kUdp 30303 rF_valid.content (by decide)).2 (by decide)
+
+/-- a value that merely *starts* with an encoded port is reported by `C14_port_get_iff` (such a
+    content is not `ContentOK`: no valid record has it) -/
+example : (⟨1, [], [(kUdp, [130, 118, 95, 1, 2])], []⟩ : Record).getPort kUdp = some 30303 :=
+  (C14_port_get_iff _ kUdp 30303).2 ⟨[1, 2], by decide, by decide⟩
+
+example : decodeUint 2 [130, 118, 95] = .ok (30303, []) := C14_u16_roundtrip 30303 (by decide)
+
+example : encUint 30303 = [130, 118, 95] ∧ encUint 80 = [80] ∧ encUint 0 = [128] := by decide
+
+/-! addresses, `id`, byte strings -/
+
+example : rF.id = some vV4 := (C14_id_iff rF vV4).2 ⟨[], by decide, by decide⟩
+
+example : rF.ip4 = some [10, 0, 0, 1] := (C14_ip4_iff rF _).2 ⟨[], by decide, by decide⟩
+
+example : rF.ip6 = some ip6x := ((C14_ip_exact rF ip6x rF_valid.content).2).2 (by decide)
+
+example : ∃ rest, Map.lookup rF.content kIp = some (encBytes [10, 0, 0, 1] ++ rest) ∧
+    ([10, 0, 0, 1] : Bytes).length = 4 := (C14_ip4_iff rF _).1 (by decide)
+
+example : rF.getBytes [120] = some [7, 7] := (C14_getBytes_iff rF [120] [7, 7]).2 ⟨[], by decide, by decide⟩
+
+example : rF.get [120] = .ok (some [7, 7]) ∧ rF.getBytes [120] = some [7, 7] :=
+  C14_get_of_lookup rF [120] [7, 7] (by decide) (by decide)
+
+/-- an `ip` entry of the wrong length is not reported -/
+example : (⟨1, [], [(kIp, [131, 10, 0, 0])], []⟩ : Record).ip4 = none ∧
+    (⟨1, [], [(kIp6, [132, 10, 0, 0, 1])], []⟩ : Record).ip6 = none := by decide
+
+/-! `client_info` -/
+
+example : rF.clientInfo = some ([97], [98, 98], some [99]) :=
+  C14_clientInfo_three rF [97] [98, 98] [99] (by decide) (by decide) (by decide) (by decide)
+    (by decide)
+
+/-- the accessor's list loop, run by the kernel -/
+example : rF.clientInfo = some ([97], [98, 98], some [99]) := by decide +kernel
+
+example : ∃ l rest, Map.lookup rF.content kClient = some (encList (encStrs l) ++ rest) ∧
+    (encStrs l).length < 2 ^ 64 ∧ (∀ s ∈ l, s.length < 2 ^ 64) ∧
+    clientOf l = some ([97], [98, 98], some [99]) :=
+  (C14_clientInfo_iff rF _).1 (by decide +kernel)
+
+/-- two strings; one string and four strings (nothing reported) -/
+example : (⟨1, [], [(kClient, [196, 97, 130, 98, 98])], []⟩ : Record).clientInfo =
+    some ([97], [98, 98], none) :=
+  C14_clientInfo_two _ [97] [98, 98] (by decide) (by decide) (by decide) (by decide)
+
+example : (⟨1, [], [(kClient, [193, 97])], []⟩ : Record).clientInfo = none :=
+  C14_clientInfo_other_arity _ [[97]] (by decide) (by decide) (by decide) (by decide) (by decide)
+
+example : (⟨1, [], [(kClient, [196, 97, 98, 99, 100])], []⟩ : Record).clientInfo = none :=
+  C14_clientInfo_other_arity _ [[97], [98], [99], [100]] (by decide) (by decide) (by decide)
+    (by decide) (by decide)
+
+/-! sockets and reachability -/
+
+example : rF.udp4Socket = some ([10, 0, 0, 1], 30303) :=
+  ((C14_socket_eq_some rF [10, 0, 0, 1] 30303).1).2 ⟨by decide, by decide⟩
+
+example : rF.udp4Socket = some ([10, 0, 0, 1], 30303) ∧ rF.tcp4Socket = some ([10, 0, 0, 1], 80) ∧
+    rF.tcp6Socket = some (ip6x, 443) ∧ rF.udp6Socket = none ∧
+    rF.isUdpReachable = true ∧ rF.isTcpReachable = true := by decide
+
+/-- an ip without a port is no socket: `rC` has `ip6` but no `tcp6`/`udp6` yet -/
+example : rC.ip6 = some ip6x ∧ rC.tcp6Socket = none ∧ rC.udp6Socket = none := by decide
+
+example : r0.isUdpReachable = false ∧ r0.isTcpReachable = false := by decide
+
+/-! what a setter stores reads back: the hypotheses (a successful `step`) hold for the six updates -/
+
+example : rA.udp4Socket = some ([10, 0, 0, 1], 30303) :=
+  (C14_setter_reads_back_udpSocket tinyS_lawful (by decide) stepA_ok).1 (by decide)
+
+example : rB.tcp4 = some 80 :=
+  (C14_setter_reads_back_port tinyS_lawful (by decide : (80 : Nat) < 65536)).1 stepB_ok
+
+example : r1.udp4 = some 30303 :=
+  (C14_setter_reads_back_port tinyS_lawful (by decide : (30303 : Nat) < 65536)).2.2.1 step1_ok
+
+example : rC.ip6 = some ip6x := (C14_setter_reads_back_ip tinyS_lawful stepC_ok).2 (by decide)
+
+example : rD.clientInfo = some ([97], [98, 98], some [99]) :=
+  C14_setter_reads_back_clientInfo (by decide) opsAF_wf.2.2.2.1 stepD_ok
+
+example : rE.getRaw [120] = some [130, 7, 7] ∧ rE.getBytes [120] = some [7, 7] :=
+  have h := C14_insert_reads_back (by decide) stepE_ok
+  ⟨h.1, h.2 [7, 7] rfl (by decide)⟩
+
+example : rF.tcp6Socket = some (ip6x, 443) :=
+  (C14_setter_reads_back_tcpSocket tinyS_lawful (by decide) stepF_ok).2 (by decide)
+
+/-- the signer's key after the re-keying update `r1 → r2` (`pk1` = `09 09`) -/
+example : r2.getBytes kT = some [9, 9] := C14_pubkey_reads_back (tiny_keyOK pk1) step2_ok
+
+/-! the builder (`build` does not look at the signer's answer beyond its length: `[1]` will do) -/
+
+example :
+    let r : Record := ⟨1, [1, 2, 3], [(kId, [130, 118, 52]), (kT, [131, 1, 2, 3]), (kUdp, [130, 118, 95])], [1]⟩
+    Builder.build tinyS (({} : Builder).addValue kUdp (.uint 30303)) pk0 (some [1]) = .ok r ∧
+      r.udp4 = some 30303 ∧ r.getRaw kUdp = some [130, 118, 95] ∧ r.id = some vV4 := by
+  intro r
+  have hb : Builder.build tinyS (({} : Builder).addValue kUdp (.uint 30303)) pk0 (some [1]) = .ok r := rfl
+  exact ⟨hb, (C14_builder_reads_back_port tinyS_lawful (by decide : (30303 : Nat) < 65536)).2.2.1 hb,
+    C14_builder_reads_back (by decide) (by decide) hb, C14_builder_id tinyS_lawful hb⟩
+
+example :
+    let r : Record := ⟨1, [1, 2, 3], [(kId, [130, 118, 52]), (kIp, [132, 10, 0, 0, 1]), (kT, [131, 1, 2, 3])], [1]⟩
+    Builder.build tinyS (({} : Builder).addValue kIp (.bytes [10, 0, 0, 1])) pk0 (some [1]) = .ok r ∧
+      r.ip4 = some [10, 0, 0, 1] := by
+  intro r
+  have hb : Builder.build tinyS (({} : Builder).addValue kIp (.bytes [10, 0, 0, 1])) pk0 (some [1]) = .ok r := rfl
+  exact ⟨hb, (C14_builder_reads_back_ip tinyS_lawful).1 (by decide) hb⟩
+
+/-- `r0` is a built record -/
+example : r0.id = some vV4 := C14_builder_id tinyS_lawful r0_built
+
+end NonVacuity
+
 /-! ### Axioms -/
 
 #print axioms C14_port_get_iff
@@ -459,6 +615,26 @@ theorem C14_strings_wellformed (r : Record) :
       cases c0 with
       | none => simp at hx
       | some y => simp only [Option.map_some, Option.some.injEq] at hx; rw [← hx]; exact utf8Lossy_valid y
+
+/-! ### non-vacuity (strings) -/
+
+example : rF.idString = some [118, 52] := C14_idString_valid tinyS rF rF_valid
+
+/-- `rF`'s client strings "a", "bb", "c" are ASCII, so they come back unchanged -/
+example : rF.clientInfoStrings = some ([97], [98, 98], some [99]) :=
+  C14_clientInfoStrings_of_valid_utf8 rF [97] [98, 98] (some [99]) (by decide +kernel) (by decide)
+    (by decide) (fun x hx => by cases hx; decide)
+
+/-- a stored name that is not UTF-8 (`ff`) is replaced by U+FFFD (`ef bf bd`); what is reported is
+    well-formed, as `C14_strings_wellformed` says -/
+example :
+    let r : Record := ⟨1, [], [(kClient, [197, 129, 255, 130, 98, 98])], []⟩
+    r.clientInfo = some ([255], [98, 98], none) ∧
+      r.clientInfoStrings = some ([239, 191, 189], [98, 98], none) ∧
+      utf8Valid [255] = false ∧ utf8Valid [239, 191, 189] = true := by
+  intro r
+  have h : r.clientInfoStrings = some ([239, 191, 189], [98, 98], none) := by decide +kernel
+  exact ⟨by decide +kernel, h, by decide, ((C14_strings_wellformed r).2 _ _ _ h).1⟩
 
 #print axioms C14_idString_valid
 #print axioms C14_clientInfoStrings_of_valid_utf8
